@@ -122,6 +122,11 @@ MCArgs(name, h, dep) ==
                      thirds == <<Add(a1, Mul(Sub(b1, a1), Q(2, 3))), Mid(a1, b1), Add(a1, Mul(Sub(b1, a1), Q(1, 3))), Mid(a1, b1)>> IN
                  {[obj |-> "a", nodes |-> many, form |-> "array"], [obj |-> "a", nodes |-> many, form |-> "gen"]}
                  \cup (IF Deg(U) >= 2 THEN {[obj |-> "a", nodes |-> thirds, form |-> "tuple"]} ELSE {}))
+         ELSE IF dep < PrepDepth /\ Len(Breaks) > 4 THEN
+           \* wide universe: one knot raised to FULL multiplicity (3 or 4 copies at once), the preparation of a cleaning
+           \* that has to take several copies of one knot out again
+           {[obj |-> "a", nodes |-> [i \in 1..(Deg(U) + 1 - MultOf(U, x)) |-> x]] :
+               x \in {y \in InteriorSet(U) \cup {Mid(Knots(U)[1], Knots(U)[2])} : Deg(U) + 1 - MultOf(U, y) >= 3}}
          ELSE IF dep < PrepDepth THEN
            {[obj |-> "a", nodes |-> n] :
                n \in {m \in MultisetsUpTo(Midpoints(U) \cup InteriorSet(U), NodeSize) \ {<<>>} : InsertGuard(U, m)}}
@@ -217,7 +222,10 @@ MCArgs(name, h, dep) ==
              src  == Curve(V, Gen2(Npts(V)), h["a"].W)
          IN {[obj |-> "a", nodes |-> grid, data |-> [i \in 1..Len(grid) |-> Q(((i * 5) % 7) - 3, 1 + (i % 2))], dflt |-> FALSE],
              [obj |-> "a", nodes |-> grid, data |-> [i \in 1..Len(grid) |-> Eval(src, grid[i])], dflt |-> FALSE],
-             [obj |-> "a", nodes |-> <<Umin(V)>>, data |-> <<One>>, dflt |-> FALSE]}
+             [obj |-> "a", nodes |-> <<Umin(V)>>, data |-> <<One>>, dflt |-> FALSE],
+             \* replicated measurements: every node of the grid occurs again (interleaved, unsorted) with OTHER data
+             [obj |-> "a", nodes |-> grid \o Rev(grid),
+                           data |-> [i \in 1..(2 * Len(grid)) |-> Q(((i * 5) % 7) - 3, 1 + (i % 2))], dflt |-> FALSE]}
             \cup (IF Npts(V) = Deg(V) + 1
                   THEN LET sq == [i \in 1..Npts(V) |-> Add(Umin(V), Mul(Sub(Umax(V), Umin(V)), Q(i - 1, Npts(V))))] IN
                        {[obj |-> "a", nodes |-> sq, data |-> [i \in 1..Len(sq) |-> R(i * i - 2)], dflt |-> FALSE]}
@@ -245,6 +253,8 @@ BreaksQ == <<R(-1), R(0), R(2), R(3)>>
 BreaksT == <<R(0), Half, R(2), R(3)>>
 BreaksW == <<R(-1), R(0), Half, R(2), R(3), R(5)>>   \* wide: four interior break points, unequal spans
 DegsW == 3..4
+Degs3 == {3}
+Degs0 == {0}
 BreaksN == <<R(0), Q(1, 3), Q(2, 3), R(1)>>   \* a SHORT interval: max(1, umax-umin) = 1, the tolerance bound is not diluted
 DegsQ == 0..2
 DegsT == 0..3
